@@ -360,8 +360,66 @@ def contains(node, pred):
     return any(pred(n) for n in ast.walk(node))
 
 
-def str_value(node):
-    """Value of a string constant / f-string rendered with §holes§; None otherwise."""
+def _single_def(fnode, name):
+    if fnode is None:
+        return None
+    defs = [n for n in ast.walk(fnode) if isinstance(n, ast.Assign) and len(n.targets) == 1 and isinstance(n.targets[0], ast.Name) and n.targets[0].id == name]
+    others = [n for n in ast.walk(fnode) if isinstance(n, ast.Name) and n.id == name and isinstance(n.ctx, ast.Store)]
+    if len(defs) == 1 and len(others) == 1:
+        return defs[0].value
+    return None
+
+
+def _format_fields(fmt):
+    """Split a str.format template into ('lit', text) / ('field', name) parts (final text: {{ -> {)."""
+    out = []
+    i = 0
+    buf = ""
+    auto = 0
+    while i < len(fmt):
+        c = fmt[i]
+        if c == "{":
+            if fmt[i : i + 2] == "{{":
+                buf += "{"
+                i += 2
+                continue
+            j = fmt.find("}", i)
+            if j < 0:
+                return None
+            field = fmt[i + 1 : j]
+            conv = ""
+            if "!" in field:
+                conv = "!" + field.split("!")[1].split(":")[0]
+            field = field.split("!")[0].split(":")[0]
+            if buf:
+                out.append(("lit", buf))
+                buf = ""
+            if field == "":
+                field = str(auto)
+                auto += 1
+            out.append(("field", field, conv))
+            i = j + 1
+            continue
+        if c == "}":
+            if fmt[i : i + 2] == "}}":
+                buf += "}"
+                i += 2
+                continue
+            return None
+        buf += c
+        i += 1
+    if buf:
+        out.append(("lit", buf))
+    return out
+
+
+def template_of(node, fnode=None, depth=0):
+    """The text a string-building expression produces, with §expr§ holes for the non-literal parts.
+
+    Understands literals, f-strings, `"...".format(...)`, `+` concatenation, `str(x)` and (given the enclosing
+    function) names assigned once from such expressions.  None if the expression does not build a string this way."""
+    if depth > 6:
+        return None
     if isinstance(node, ast.Constant) and isinstance(node.value, str):
         return node.value
     if isinstance(node, ast.JoinedStr):
@@ -371,8 +429,76 @@ def str_value(node):
                 out.append(str(v.value))
             elif isinstance(v, ast.FormattedValue):
                 conv = {-1: "", 114: "!r", 115: "!s", 97: "!a"}.get(v.conversion, "")
-                out.append("§" + src(v.value) + conv + "§")
+                inner = None
+                if isinstance(v.value, ast.Name) and not conv:
+                    d = _single_def(fnode, v.value.id)
+                    if d is not None and isinstance(d, (ast.BinOp, ast.JoinedStr)) :
+                        inner = template_of(d, fnode, depth + 1)
+                out.append(inner if inner is not None else "§" + src(v.value) + conv + "§")
         return "".join(out)
+    if isinstance(node, ast.Call) and isinstance(node.func, ast.Attribute) and node.func.attr == "format":
+        base = node.func.value
+        if isinstance(base, ast.Name):
+            base = _single_def(fnode, base.id) or base
+        if not (isinstance(base, ast.Constant) and isinstance(base.value, str)):
+            return None
+        parts = _format_fields(base.value)
+        if parts is None or any(isinstance(a, ast.Starred) for a in node.args) or any(k.arg is None for k in node.keywords):
+            return None
+        kw = {k.arg: k.value for k in node.keywords}
+        out = []
+        for part in parts:
+            kind, val = part[0], part[1]
+            conv = part[2] if len(part) > 2 else ""
+            if kind == "lit":
+                out.append(val)
+                continue
+            arg = None
+            if val.isdigit() and int(val) < len(node.args):
+                arg = node.args[int(val)]
+            elif val in kw:
+                arg = kw[val]
+            if arg is None:
+                return None
+            t = None
+            if isinstance(arg, (ast.JoinedStr, ast.BinOp)) or (isinstance(arg, ast.Constant) and isinstance(arg.value, str)):
+                t = template_of(arg, fnode, depth + 1)
+            elif isinstance(arg, ast.Name):
+                d = _single_def(fnode, arg.id)
+                if d is not None and isinstance(d, (ast.BinOp, ast.JoinedStr)):
+                    t = template_of(d, fnode, depth + 1)
+            elif isinstance(arg, ast.Call) and call_name(arg) == "repr" and len(arg.args) == 1:
+                t = "§" + src(arg.args[0]) + "!r§"
+            out.append(t if t is not None and not conv else "§" + src(arg) + conv + "§")
+        return "".join(out)
+    if isinstance(node, ast.BinOp) and isinstance(node.op, ast.Add):
+        a = template_of(node.left, fnode, depth + 1)
+        b = template_of(node.right, fnode, depth + 1)
+        if a is None and isinstance(node.left, ast.Name):
+            a = "§" + node.left.id + "§"
+        if b is None and isinstance(node.right, ast.Name):
+            b = "§" + node.right.id + "§"
+        if a is None or b is None:
+            return None
+        return a + b
+    if isinstance(node, ast.Call) and call_name(node) == "str" and len(node.args) == 1:
+        return "§" + src(node.args[0]) + "§"
+    if isinstance(node, ast.Call) and call_name(node) == "repr" and len(node.args) == 1:
+        return "§" + src(node.args[0]) + "!r§"
+    if isinstance(node, ast.Name):
+        d = _single_def(fnode, node.id)
+        if d is not None and not isinstance(d, ast.Name):
+            return template_of(d, fnode, depth + 1)
+    return None
+
+
+def str_value(node, fnode=None):
+    """Value of a string-building expression rendered with §holes§; None otherwise."""
+    if isinstance(node, (ast.Constant, ast.JoinedStr)):
+        return template_of(node, fnode) if not (isinstance(node, ast.Constant) and not isinstance(node.value, str)) else None
+    if fnode is not None or isinstance(node, (ast.BinOp, ast.Call)):
+        t = template_of(node, fnode)
+        return t
     return None
 
 
